@@ -436,4 +436,166 @@ theorem parseLine_record (ctx : Ctx) (p : PRecord) (hwf : WFRecord p) (line : Na
     rw [nameNewlines_eq] at htail ⊢
     exact htail
 
+/-! ### blank lines -/
+
+theorem parseLine_blank (ctx : Ctx) (ws cmt r : List UInt8) (hws : ∀ x ∈ ws, isWs x = true)
+    (hc : commentOK cmt) (line : Nat) :
+    parseLine ctx ⟨ws ++ (cmt ++ 10 :: r), line, false⟩ = .ok ((none, ctx), ⟨r, line + 1, false⟩) := by
+  -- the first octet of the line: a blank, `;`, or the newline — never `$`
+  obtain ⟨c, t, hct, hc36⟩ : ∃ c t, ws ++ (cmt ++ 10 :: r) = c :: t ∧ (c == 36) = false := by
+    cases ws with
+    | cons x ws' =>
+      have hx := hws x (by simp)
+      refine ⟨x, _, rfl, ?_⟩
+      simp only [isWs, Bool.or_eq_true, beq_iff_eq] at hx
+      rcases hx with rfl | rfl <;> decide
+    | nil =>
+      rcases hc with rfl | ⟨body, rfl, _⟩
+      · exact ⟨10, r, rfl, by decide⟩
+      · exact ⟨59, _, rfl, by decide⟩
+  unfold parseLine
+  simp only [hct, hc36, Bool.false_eq_true, ↓reduceIte]
+  rw [parseRecordOrEmpty_eq, ← hct]
+  -- after the blanks: the comment or the newline
+  have hdrop : (ws ++ (cmt ++ 10 :: r)).dropWhile isWs = cmt ++ 10 :: r := by
+    rcases hc with rfl | ⟨body, rfl, _⟩
+    · exact dropWhile_ws ws hws 10 r (by decide)
+    · exact dropWhile_ws ws hws 59 _ (by decide)
+  have hsk : (skipWhitespace ⟨ws ++ (cmt ++ 10 :: r), line, false⟩).2 = ⟨cmt ++ 10 :: r, line, false⟩ := by
+    unfold skipWhitespace
+    rw [hct]; simp only; rw [← hct, hdrop]
+  rw [hsk]
+  have := fieldOrEol_eol [] cmt r (by simp) hc line
+  simp only [List.nil_append] at this
+  simp only [this, beq_self_eq_true, ↓reduceIte, pure, P.pure]
+
+/-! ### whole files -/
+
+theorem collect_item {p p' : Parser} {i : Item} (hn : p.next = (some (.item i), p'))
+    (hlt : p'.st.inp.length < p.st.inp.length) : collect p = .item i :: collect p' := by
+  rw [collect, hn]; simp [hlt]
+
+theorem collect_none {p p' : Parser} (hn : p.next = (none, p')) : collect p = [] := by
+  rw [collect, hn]
+
+/-- two reader states from which `parse_lines_until_returnable_data_found` behaves the same
+    yield the same items -/
+theorem collect_of_untilData_eq {ctx : Ctx} {st1 st2 : St} (h : untilData ctx st1 = untilData ctx st2)
+    (hctx : CtxWF ctx) (hlen : st2.inp.length ≤ st1.inp.length) :
+    collect ⟨false, st1, ctx⟩ = collect ⟨false, st2, ctx⟩ := by
+  have g := next_spec (p := ⟨false, st2, ctx⟩) hctx
+  rw [collect, collect]
+  simp only [Parser.next, Bool.false_eq_true, ↓reduceIte, h] at g ⊢
+  cases hu : untilData ctx st2 with
+  | ok r =>
+    obtain ⟨⟨it?, ctx'⟩, st'⟩ := r
+    rw [hu] at g
+    cases it? with
+    | none => rfl
+    | some item =>
+      simp only [NextOK] at g
+      have h2 : st'.inp.length < st2.inp.length := g.2.2
+      have h1 : st'.inp.length < st1.inp.length := by omega
+      simp [h1, h2]
+  | err e => simp [Parser.next]
+  | panic => simp [Parser.next]
+
+theorem untilData_blank (ctx : Ctx) (ws cmt R : List UInt8) (hws : ∀ x ∈ ws, isWs x = true)
+    (hc : commentOK cmt) (line : Nat) :
+    untilData ctx ⟨ws ++ (cmt ++ 10 :: R), line, false⟩ = untilData ctx ⟨R, line + 1, false⟩ := by
+  have hline := parseLine_blank ctx ws cmt R hws hc line
+  have hlt : R.length < (ws ++ (cmt ++ 10 :: R)).length := by simp; omega
+  rw [untilData]
+  cases hw : ws ++ (cmt ++ 10 :: R) with
+  | nil => rw [hw] at hlt; simp at hlt
+  | cons c t =>
+    simp only
+    rw [← hw, hline]
+    simp only [hlt, ↓reduceIte]
+
+theorem next_of_untilData {ctx ctx' : Ctx} {st st' : St} {i : Item}
+    (h : untilData ctx st = .ok ((some i, ctx'), st')) :
+    (⟨false, st, ctx⟩ : Parser).next = (some (.item i), ⟨false, st', ctx'⟩) := by
+  simp [Parser.next, h]
+
+theorem renderEntry_ne_nil (e : PEntry) : renderEntry e ≠ [] := by
+  cases e with
+  | blank ws cmt => simp [renderEntry]
+  | record p => simp [renderEntry, renderRecord]
+
+/-- well-formed presentation of an entry -/
+def WFEntry : PEntry → Prop
+  | .blank ws cmt => (∀ x ∈ ws, isWs x = true) ∧ commentOK cmt
+  | .record p => WFRecord p
+
+def itemOf (sr : SRecord) : Yield := .item (.record sr.line ⟨sr.owner, sr.ttl, sr.cls, sr.ty, sr.rdata⟩)
+
+/-- **Whole files of the subset.**  A file of well-formed entries that denotes the records `srs`
+    (all with RDATA valid for class and type) parses to exactly those records, in order, with
+    their line numbers — from any well-formed context and line. -/
+theorem collect_file (es : List PEntry) (hwf : ∀ e ∈ es, WFEntry e) (ctx : Ctx) (hctx : CtxWF ctx)
+    (line : Nat) (srs : List SRecord) (hden : denoteFile es (toSCtx ctx) line = some srs)
+    (hvalid : ∀ sr ∈ srs, validate sr.cls sr.ty sr.rdata = .ok ()) :
+    collect ⟨false, ⟨renderFile es, line, false⟩, ctx⟩ = srs.map itemOf := by
+  induction es generalizing ctx line srs with
+  | nil =>
+    simp only [denoteFile, Option.some.injEq] at hden
+    subst hden
+    apply collect_none (p' := ⟨false, ⟨[], line, false⟩, ctx⟩)
+    simp [Parser.next, renderFile, untilData]
+  | cons e es ih =>
+    have hwf' : ∀ e' ∈ es, WFEntry e' := fun e' h' => hwf e' (by simp [h'])
+    have hrf : renderFile (e :: es) = renderEntry e ++ renderFile es := by simp [renderFile]
+    cases e with
+    | blank ws cmt =>
+      obtain ⟨hws, hcmt⟩ := hwf (.blank ws cmt) (by simp)
+      simp only [denoteFile] at hden
+      have hline := parseLine_blank ctx ws cmt (renderFile es) hws hcmt line
+      have htext : renderFile (.blank ws cmt :: es) = ws ++ (cmt ++ 10 :: renderFile es) := by
+        simp [hrf, renderEntry]
+      rw [← ih hwf' ctx hctx (line + 1) srs hden hvalid, htext]
+      exact collect_of_untilData_eq (untilData_blank ctx ws cmt (renderFile es) hws hcmt line) hctx
+        (by simp; omega)
+    | record p =>
+      have hp := hwf (.record p) (by simp)
+      simp only [denoteFile, bind, Option.bind] at hden
+      cases hd : denoteRecord (toSCtx ctx) line p with
+      | none => simp [hd] at hden
+      | some res =>
+        obtain ⟨sr, sc'⟩ := res
+        simp only [hd] at hden
+        cases hrest : denoteFile es sc' (line + ownerLines p.owner + 1) with
+        | none => simp [hrest] at hden
+        | some rest =>
+          simp only [hrest, pure, Option.some.injEq] at hden
+          subst hden
+          have hsr : sr.cls = sr.cls ∧ sr.ty = p.ty ∧ sr.rdata = p.rdata := by
+            obtain ⟨_, _, _, _, _, _, rfl, _⟩ := denoteRecord_some hd
+            exact ⟨rfl, rfl, rfl⟩
+          have hv := hvalid sr (by simp)
+          rw [hsr.2.1, hsr.2.2] at hv
+          obtain ⟨ctx', hline, hsc, _⟩ := parseLine_record ctx p hp line (renderFile es) sr sc' hd hv
+          have htext : renderFile (.record p :: es) = renderRecord p ++ renderFile es := by
+            simp [hrf, renderEntry]
+          have hne : renderRecord p ++ renderFile es ≠ [] := by
+            have := renderEntry_ne_nil (.record p)
+            simp [renderEntry] at this
+            simp [this]
+          have hu : untilData ctx ⟨renderRecord p ++ renderFile es, line, false⟩ =
+              .ok ((some (.record sr.line ⟨sr.owner, sr.ttl, sr.cls, sr.ty, sr.rdata⟩), ctx'),
+                ⟨renderFile es, line + ownerLines p.owner + 1, false⟩) := by
+            rw [untilData]
+            cases hw : renderRecord p ++ renderFile es with
+            | nil => exact absurd hw hne
+            | cons c t => simp only; rw [← hw, hline]
+          rw [htext]
+          have hnext := next_of_untilData hu
+          have g := next_spec (p := ⟨false, ⟨renderRecord p ++ renderFile es, line, false⟩, ctx⟩) hctx
+          rw [hnext] at g
+          rw [collect_item hnext g.2.2]
+          simp only [List.map_cons, itemOf]
+          congr 1
+          exact ih hwf' ctx' g.2.1 _ rest (by rw [hsc]; exact hrest)
+            (fun s hs => hvalid s (by simp [hs]))
+
 end QV.ZF
